@@ -13,26 +13,35 @@ pub struct Built {
 }
 
 /// Builds the configuration of a case with the given declaration orders.
-pub fn build(case: &Value, lperm: &[usize], aperm: &[usize]) -> Result<Built, String> {
+pub fn build(case: &Value, lperm: &[usize], aperm: &[usize], salt: usize) -> Result<Built, String> {
     let counters: Vec<Arc<Counter>> = (0..APPENDERS.len()).map(|_| Arc::new(Counter::default())).collect();
+    // how the declarations are handed to the builders - one at a time, in bulk, or mixed - is not part of the
+    // configuration (ConfigBuild.tla): every build picks one of the styles
+    let style = mix(salt * 31 + lperm.iter().fold(7usize, |a, x| a * 5 + x) + aperm.iter().fold(3usize, |a, x| a * 7 + x) + case["loggers"].as_array().unwrap().len());
     let mut b = log4rs::Config::builder();
-    for &ai in aperm {
-        b = b.appender(
-            log4rs::config::Appender::builder().build(APPENDERS[ai], Box::new(CountingAppender(counters[ai].clone()))),
-        );
+    let apps: Vec<log4rs::config::Appender> = aperm.iter()
+        .map(|&ai| log4rs::config::Appender::builder().build(APPENDERS[ai], Box::new(CountingAppender(counters[ai].clone()))))
+        .collect();
+    for mut run in runs(apps, style) {
+        b = if run.len() == 1 { b.appender(run.pop().unwrap()) } else { b.appenders(run) };
     }
     let loggers = case["loggers"].as_array().unwrap();
-    for &li in lperm {
+    let decls: Vec<log4rs::config::Logger> = lperm.iter().map(|&li| {
         let l = &loggers[li];
         let mut lb = log4rs::config::Logger::builder().additive(l["add"].as_bool().unwrap());
-        for a in l["apps"].as_array().unwrap() {
-            lb = lb.appender(a.as_str().unwrap());
+        let names: Vec<String> = l["apps"].as_array().unwrap().iter().map(|a| a.as_str().unwrap().to_string()).collect();
+        for mut run in runs(names, style / 25 + li) {
+            lb = if run.len() == 1 { lb.appender(run.pop().unwrap()) } else { lb.appenders(run) };
         }
-        b = b.logger(lb.build(l["name"].as_str().unwrap(), level_filter(l["lvl"].as_i64().unwrap())));
+        lb.build(l["name"].as_str().unwrap(), level_filter(l["lvl"].as_i64().unwrap()))
+    }).collect();
+    for mut run in runs(decls, style / 5) {
+        b = if run.len() == 1 { b.logger(run.pop().unwrap()) } else { b.loggers(run) };
     }
     let mut rb = log4rs::config::Root::builder();
-    for a in case["root"]["apps"].as_array().unwrap() {
-        rb = rb.appender(a.as_str().unwrap());
+    let names: Vec<String> = case["root"]["apps"].as_array().unwrap().iter().map(|a| a.as_str().unwrap().to_string()).collect();
+    for mut run in runs(names, style / 125) {
+        rb = if run.len() == 1 { rb.appender(run.pop().unwrap()) } else { rb.appenders(run) };
     }
     // strict and lossy builds are both entry points to the same routing (the file loaders use the lossy one)
     // a third of the builds declare the root at Off and give it its level afterwards, through Config::root_mut():
@@ -85,7 +94,7 @@ pub fn check_case(ci: usize, case: &Value, targets: &[String], max_perms: usize)
     let mut out = vec![];
     for (pi, lperm) in lperms.iter().enumerate() {
         let aperm = &aperms[pi % aperms.len()];
-        let built = match catch(|| build(case, lperm, aperm)) {
+        let built = match catch(|| build(case, lperm, aperm, ci)) {
             Ok(Ok(b)) => b,
             Ok(Err(e)) => {
                 out.push(json!({"what": "build", "error": e, "order": lperm}));
